@@ -396,6 +396,11 @@ pub fn gen(prop: &str, seed: u64, index: u64, _tier: Tier) -> Case {
         ops.extend(f);
     }
     ops.push(mk_run(&mut rng, mode, "faulted-run"));
+    if fault == "F8-fsize-limit" && matches!(mode, ModeS::Build | ModeS::Needed) && rng.chance(1, 2) {
+        // once the limit is lifted the same build runs again: if it reports success, everything
+        // is complete and correct, whatever the failed run left (or left running)
+        ops.push(mk_run(&mut rng, mode, "retry-after-fault"));
+    }
     Case {
         property: prop.to_string(),
         variant: format!("{fault}/{pos}/{}", mode.name()),
@@ -489,10 +494,20 @@ fn project_with_writes(case: &Case) -> Project {
     p
 }
 
+/// Index of the operation that is the faulted run (the last run unless a retry follows it).
+fn faulted_index(case: &Case) -> Option<usize> {
+    let by_label = case
+        .ops
+        .iter()
+        .rposition(|o| matches!(o, Op::Run { label, .. } if label == "faulted-run"));
+    by_label.or_else(|| case.ops.iter().rposition(|o| matches!(o, Op::Run { .. })))
+}
+
 /// F8: turn the relative description of the size limit into bytes, from the sizes a reference
 /// build of the same sources produces. Returns (case with the limit filled in, expected failure).
 fn resolve_fsize(case: &Case, ctx: &mut Ctx) -> Option<(Case, bool, String)> {
-    let (cfg, _) = match case.ops.last() {
+    let fi = faulted_index(case)?;
+    let (cfg, _) = match case.ops.get(fi) {
         Some(Op::Run { cfg, sched, .. }) => (cfg.clone(), sched.clone()),
         _ => return None,
     };
@@ -547,7 +562,7 @@ fn resolve_fsize(case: &Case, ctx: &mut Ctx) -> Option<(Case, bool, String)> {
         }
     };
     let mut c = case.clone();
-    if let Some(Op::Run { cfg, .. }) = c.ops.last_mut() {
+    if let Some(Op::Run { cfg, .. }) = c.ops.get_mut(fi) {
         cfg.fsize_limit = Some(limit);
     }
     let victim = sizes
@@ -596,10 +611,11 @@ pub fn run(case: &Case, ctx: &mut Ctx) -> CaseOutcome {
     out.digest = mix(&dig);
     let fault = case.params.get("fault").cloned().unwrap_or_default();
     let faulty = case.params.get("faulty").cloned().unwrap_or_default();
-    let last = match h.runs.last() {
-        Some(r) if r.label == "faulted-run" => r,
+    let last = match h.runs.iter().rev().find(|r| r.label == "faulted-run") {
+        Some(r) => r,
         _ => return out,
     };
+    let retry = h.runs.iter().find(|r| r.label == "retry-after-fault");
     if h.poisoned {
         // "the run returns an error" includes returning at all
         if let Some(hg) = &last.sim.hang {
@@ -716,6 +732,38 @@ pub fn run(case: &Case, ctx: &mut Ctx) -> CaseOutcome {
             }
         }
         Verdict::Hung => {}
+    }
+    if let (Some(rt), None) = (retry, &out.violation) {
+        ctx.stats.count("c04.retries_after_the_fault_was_lifted");
+        if let Some(hg) = &rt.sim.hang {
+            out.violate("C04", "hang-on-fault", format!("[{cell}] the retry after the fault was lifted: {hg}"));
+        } else if rt.sim.verdict.is_ok() {
+            let good: BTreeSet<usize> = req.difference(&a.bad()).copied().collect();
+            tree::plant(&ctx.env.ref_root, &non_generated(&last.before, &a));
+            let r = crate::env::rseq(
+                ctx.env,
+                &ctx.env.ref_root,
+                &a,
+                &good,
+                &rt.cfg.base,
+                txtpp::Mode::Build,
+                rt.cfg.trailing_newline,
+                &rt.cfg.shell,
+            );
+            if r.all_ok(&good) {
+                for i in &good {
+                    if let Some(m) = compare_generated(&a, *i, &rt.after, &r) {
+                        out.violate(
+                            "C04",
+                            "success-with-wrong-output",
+                            format!("[{cell}] the same build again after the limit was lifted reports success, but {m}"),
+                        );
+                        break;
+                    }
+                }
+                ctx.stats.count("c04.ok_retries_checked_against_reference");
+            }
+        }
     }
     // a sample of cells again through the real binary (OS-scheduled): exit status must agree
     if case.index % 8 == 0 && out.violation.is_none() && !is_f8 {
